@@ -177,3 +177,17 @@ void *memmove(void *dest, const void *src, size_t n)
 }
 #endif
 #endif
+
+#ifndef CFGV_REF_STRINGS2_H
+#define CFGV_REF_STRINGS2_H
+/* more reference string routines (C11 7.24), used by the path units */
+char *strcpy(char *d, const char *s) { size_t i = 0; for (;; i++) { d[i] = s[i]; if (!s[i]) break; } return d; }
+char *strcat(char *d, const char *s) { size_t n = strlen(d), i = 0; for (;; i++) { d[n + i] = s[i]; if (!s[i]) break; } return d; }
+char *strncpy(char *d, const char *s, size_t n)
+{
+	size_t i = 0;
+	for (; i < n && s[i]; i++) d[i] = s[i];
+	for (; i < n; i++) d[i] = 0;
+	return d;
+}
+#endif
